@@ -6,6 +6,7 @@ import CoercionModel.Props.C07
 import CoercionModel.Model.Skeletons
 import CoercionModel.Generated.F10
 import CoercionModel.Proofs.TranslatedFinal
+import CoercionModel.Proofs.SchedLive
 set_option linter.unusedSimpArgs false
 /-
   C04 — Wait returns a terminal, quiescent, consistent and truthful final plan.
@@ -151,5 +152,19 @@ theorem translated_examineChecks (pre cont post dfr : Option Checks) :
        | (.failed, r) => (r, true)
        | _ => (.unknown, false)) :=
   TranslatedFinal.examineChecks_eq pre cont post dfr
+
+/-! ### "without hanging": the launch loop (Model/Sched) cannot get stuck and cannot run forever -/
+
+/-- deadlock freedom: in every reachable state of the launch loop that has not left the loop, some step — of the
+    loop or of a worker — is enabled (the limiter being full means a worker holds a slot and can move) -/
+theorem launch_loop_never_stuck (c : Sched.Cfg) (hc : 1 ≤ c.conc) (t : List Sched.Label) (s : Sched.S)
+    (hr : Sched.run c {} t = some s) (hp : s.pc ≠ .exited) : ∃ l, (Sched.step c s l).isSome = true :=
+  Sched.reachable_not_stuck c hc t s hr hp
+
+/-- termination: every schedule of the launch loop has at most 5·n + 3 steps (n = sequences of the block); with
+    plugin calls that return or are abandoned at their timeout, `ExecuteSequences` therefore returns -/
+theorem launch_loop_terminates (c : Sched.Cfg) (t : List Sched.Label) (s : Sched.S) (hr : Sched.run c {} t = some s) :
+    t.length ≤ 5 * c.n + 3 :=
+  Sched.every_run_is_short c t s hr
 
 end Coercion.C04
